@@ -917,3 +917,34 @@ filter:
     rule_collection.apply_filters(filters)
     result = test_backend.convert(rule_collection)
     assert result == ['EventID=4625 and not User startswith "adm_" and not User startswith "srv_"']
+
+
+def test_filter_on_rules_sharing_condition_list(test_backend):
+    """Rules generated from a global document with a condition list must be filtered independently."""
+    rule_collection = SigmaCollection.from_yaml(f"""
+action: global
+title: Global part
+{_FILTER_LOGSOURCE}
+detection:
+    selection:
+        EventID: 4625
+    condition: [selection]
+---
+detection:
+    a:
+        f: 1
+---
+detection:
+    b:
+        g: 2
+---
+title: Filter
+{_FILTER_LOGSOURCE}
+filter:
+  rules: any
+  flt:
+      User|startswith: 'adm_'
+  condition: not flt
+""")
+    assert rule_collection.rules[0].detection.condition is not rule_collection.rules[1].detection.condition
+    assert test_backend.convert(rule_collection) == ['EventID=4625 and not User startswith "adm_"'] * 2
